@@ -23,8 +23,8 @@ MANIFEST = dict(
     note='Trusted: Lean kernel; correspondence generators (pair generator + value generators); the independent oracle of the '
          'harness. Not proved (observed by testing on every case): the step from a value to its wire form (round trip of the '
          'sender, C04; encoder form of the sender\'s output; value-level mentionsUnknown / noVoidToRequired = message-level '
-         'knownDoc / nvrDoc of the encoding), sub_trans (sub_refl is proved; multi-edit pairs are checked by evaluating '
-         'compatEnv on the whole pair, never by composing single steps). strict_rejects_iff uses C06\'s decode_no_crash. Alias edits are generated only at sites '
+         'knownDoc / nvrDoc of the encoding). sub_refl and sub_trans are proved (multi-edit pairs are additionally checked by evaluating '
+         'compatEnv on the whole pair). strict_rejects_iff uses C06\'s decode_no_crash. Alias edits are generated only at sites '
          'where the generated bb.Attribute(nullable=, user_defined=) flags do not change (union tag types, route types, '
          'below List / Map, non-nullable non-user field types). Values containing the documented ambiguity D7 (nullable '
          'all-optional struct member with nothing set, C04 finding) and Void-to-required tags (not promised by the guide) are '
